@@ -296,8 +296,8 @@ Qed.
 Lemma feed_go_inv L : forall pieces s tr, Inv L s -> Inv L (fst (fst (feed_go zinf zall utf8_valid s pieces tr))).
 Proof.
   induction pieces as [|p ps IH]; intros s tr HI; cbn [feed_go fst]; [exact HI|].
-  pose proof (feed_piece_inv L (4 * length p + 16) s p tr HI) as Hp.
-  destruct (feed_piece zinf zall utf8_valid (4 * length p + 16) s p tr) as [[s' tr'] [r|]]; cbn [fst] in Hp |- *; [exact Hp | apply IH; exact Hp].
+  pose proof (feed_piece_inv L (5 * length p + 8) s p tr HI) as Hp.
+  destruct (feed_piece zinf zall utf8_valid (5 * length p + 8) s p tr) as [[s' tr'] [r|]]; cbn [fst] in Hp |- *; [exact Hp | apply IH; exact Hp].
 Qed.
 
 (* C06 (ledger part): for every option set, every limit L, every input and every way of delivering it *)
